@@ -81,7 +81,7 @@ class WeightedInterpolator(NNBase):
 
         if len(prediction_points.shape) == 1:
             # Reshape vector to n x 1 array
-            prediction_points.shape = (1, prediction_points.shape[0])
+            prediction_points = prediction_points.reshape(1, -1)
 
         normalized_pts = (prediction_points - self._tpm) / self._tpr
 
@@ -138,12 +138,13 @@ class WeightedInterpolator(NNBase):
 
         if len(prediction_points.shape) == 1:
             # Reshape vector to num_neighbors x 1 array
-            prediction_points.shape = (1, prediction_points.shape[0])
+            prediction_points = prediction_points.reshape(1, -1)
 
         normalized_pts = (prediction_points - self._tpm) / self._tpr
 
         if self._pt_cache is not None and \
-                np.allclose(self._pt_cache[0], normalized_pts):
+                np.array_equal(self._pt_cache[0], normalized_pts) and \
+                self._pt_cache[2].shape[-1] == num_neighbors:
             ndist, nloc = self._pt_cache[1:]
         else:
             ndist, nloc = self._KData.query(normalized_pts, num_neighbors)
@@ -155,17 +156,21 @@ class WeightedInterpolator(NNBase):
 
         dimdiff = normalized_pts - self._tp[nloc]
 
-        weights = np.power(ndist, -dist_eff)
-        dweights = -dist_eff * \
-            np.power(ndist[..., np.newaxis], -(dist_eff + 2)) * dimdiff
-
-        weight_sum = np.sum(weights, axis=1)
-
         vals = self._tv[nloc]
 
-        gradient = (weight_sum * np.einsum('ikj,ikl->ilj', dweights, vals)
-                    - (np.einsum('ij,ijk->ik', weights, vals)[..., np.newaxis]
-                       * np.sum(dweights, axis=1))) / np.power(weight_sum, 2)
+        with np.errstate(divide='ignore', invalid='ignore'):
+            weights = np.power(ndist, -dist_eff)
+            dweights = -dist_eff * \
+                np.power(ndist[..., np.newaxis], -(dist_eff + 2)) * dimdiff
+
+            weight_sum = np.sum(weights, axis=1)
+
+            gradient = (weight_sum * np.einsum('ikj,ikl->ilj', dweights, vals)
+                        - (np.einsum('ij,ijk->ik', weights, vals)[..., np.newaxis]
+                           * np.sum(dweights, axis=1))) / np.power(weight_sum, 2)
+
+        # At a training point __call__ returns the training value and the interpolant is flat.
+        gradient[np.any(ndist == 0., axis=1)] = 0.
 
         grad = gradient * (self._tvr[..., np.newaxis] / self._tpr)
 
